@@ -11,5 +11,5 @@ VERIF_CHECK=$ID VERIF_OUT=$D/dev/stats.json VERIF_KNOWN=${VERIF_KNOWN:-/verif/KN
 python3 -c "
 import json;d=json.load(open('$D/dev/stats.json'));d['samples']=[s[:300] for s in d['samples'][:1]];d['scheds']=len(d['scheds']);d.pop('rule',None)
 f=d.get('failure')
-if f: f['decisions']=len(f['decisions']); f['log']=f.get('log','')[-1500:]
+if f: f['decisions']=len(f.get('decisions') or []); f['log']=f.get('log','')[-1500:]
 print(json.dumps(d,indent=1)[:6000])"
